@@ -583,6 +583,16 @@ def search_failing(ctx):
         bad = oracle_cpu(c, r)
         if bad:
             return bad, c
+    dfj = [{"mode": "defnjobs", "call_backend": b_} for b_ in ("threading", "sequential", "loky", "multiprocessing", None)]
+    for c, r in zip(dfj, run_impl_cases(dfj, nproc=2)):
+        want = -1 if c["call_backend"] is None else 1
+        if r.get("ok") != want or (r.get("in_caller") and not all(r["in_caller"])):
+            return ("inside parallel_config(backend=<backend with default_n_jobs=-1>) and no n_jobs anywhere, Parallel(backend=%r) gave %s, "
+                    "expected n_jobs=%d in the calling thread" % (c["call_backend"], r, want)), c
+    cus = [{"mode": "custom1", "via": via, "workers": 1, "n_jobs": 3} for via in ("instance", "name", "config")]
+    for c, r in zip(cus, run_impl_cases(cus, nproc=3)):
+        if "ok" not in r or not all(x == 1 for x in r["ok"]) or r["submitted"]:
+            return "a user-defined backend (%s) whose configure() returns 1 did not run its tasks in the calling thread: %s" % (c["via"], r), c
     # real nested shapes x n_jobs in {-3,-2,-1,1,2,3,None} x explicit process backends below threads / daemonic workers,
     # judged by the oracle rules that need no model (high-water, pids, "no worker processes below a worker")
     trees = [[(None, 3, 5), (None, 2, 3), (None, 2, 3)], [(None, 2, 4)], [("threading", 2, 3), ("threading", 2, 3), (None, 2, 3)],
@@ -827,6 +837,17 @@ Definition showc (r : result Z) (pool : Z) : list Z :=
         if parse(v) != [1 if inline else 0]:
             disagreements.append({"function": "call_runs_inline", "case": c, "impl": r, "model": v})
 
+    # ---- whose default_n_jobs: a context backend with default -1 must not leak its default into a call naming another backend
+    dfj = [{"mode": "defnjobs", "call_backend": b_} for b_ in ("threading", "sequential", "loky", "multiprocessing", None)]
+    for c, r in zip(dfj, run_impl_cases(dfj, nproc=2)):
+        want = -1 if c["call_backend"] is None else 1
+        if r.get("ok") != want:
+            problems.append(("inside parallel_config(backend=<backend with default_n_jobs=-1>) and no n_jobs anywhere, Parallel(backend=%r) "
+                             "resolved n_jobs=%s, expected %d (the default of the backend the call uses)" % (c["call_backend"], r, want), c, r))
+        elif r.get("in_caller") and not all(r["in_caller"]):
+            problems.append(("Parallel(backend=%r) with n_jobs resolved to 1 did not run its tasks in the calling thread: %s" % (
+                c["call_backend"], r["in_caller"]), c, r))
+
     # ---- real nested runs
     trees = gen_trees(ctx.rng, quick)
     reuse = gen_reuse(ctx.rng, quick, real_cpus)
@@ -1030,6 +1051,15 @@ def replay(ctx, path):
         print("replay nested run:", lv, "=>", bad or "property holds", st)
         return 1 if bad else 0
     r = run_impl_cases([c], nproc=1)[0]
+    if c["mode"] == "defnjobs":
+        want = -1 if c["call_backend"] is None else 1
+        bad = None if (r.get("ok") == want and all(r.get("in_caller") or [1])) else "n_jobs / thread of the call: %s, expected n_jobs=%d" % (r, want)
+        print("replay:", json.dumps(c), "->", json.dumps(r), "=>", bad or "property holds")
+        return 1 if bad else 0
+    if c["mode"] == "custom1":
+        ok = "ok" in r and ((all(x == 1 for x in r["ok"]) and r["submitted"] == 0) == (c["workers"] == 1))
+        print("replay:", json.dumps(c), "->", json.dumps(r), "=>", "property holds" if ok else "tasks ran in the wrong thread")
+        return 0 if ok else 1
     if c["mode"] == "cpu":
         bad = oracle_cpu(c, r)
     elif c["mode"] == "api":
